@@ -6,6 +6,7 @@ import RelicVerif.Spec.HashToCurve
 import RelicVerif.Model.EpMap
 import RelicVerif.Spec.HashToCurveBin
 import RelicVerif.Spec.HashToCurveEd
+import RelicVerif.Spec.HashToCurveExt
 
 namespace Driver.C13
 open Driver Driver.C15 Relic.Spec Relic.Spec.Curve Relic.Spec.H2C Relic.Model.EpMap
@@ -379,5 +380,155 @@ def handle (e : Env) (op : String) (args : List String) (got : String) : Option 
   | _, _ => none
 
 end Ed
+
+
+/-! ### curves over the quadratic extension: ep2_map, ep2_map_sswum, ep2_map_basic -/
+
+namespace Ext
+open Relic.Spec.H2CExt
+
+structure Env where
+  c : Curve2
+  g : Point2
+  n : Nat
+  h : Nat
+  par : Int
+  pairf : Nat
+  level : Nat
+  fpbits : Nat
+  ctmap : Bool
+  alg : String
+  Z : Fp2
+  cs : List Fp2      -- ctx->ep2_map_c[0..3]
+  frb : Fp2 × Fp2
+  iso : Option (Iso Fp2)
+  isoa : Fp2
+  isob : Fp2
+
+def parseFp2 (s : String) : Option Fp2 :=
+  match s.splitOn ":" with
+  | [a, b] => do some (← parseHexNat a, ← parseHexNat b)
+  | _ => none
+
+def parseList2 (s : String) : Option (List Fp2) := (s.splitOn ",").mapM parseFp2
+
+def parseEnv (got : String) : Option Env := do
+  let kv := (got.splitOn " ").filterMap fun t => match t.splitOn "=" with
+    | [k, v] => some (k, v)
+    | _ => none
+  let hx := fun (k : String) => (kv.lookup k).bind parseHexNat
+  let dc := fun (k : String) => (kv.lookup k).bind String.toNat?
+  let f2 := fun (k : String) => (kv.lookup k).bind parseFp2
+  let q : Int ← (kv.lookup "qnr").bind String.toInt?
+  let ctmap := kv.lookup "ctmap" == some "1"
+  let iso : Option (Iso Fp2) :=
+    if ctmap then do
+      some { xn := ← (kv.lookup "xn").bind parseList2, xd := ← (kv.lookup "xd").bind parseList2,
+             yn := ← (kv.lookup "yn").bind parseList2, yd := ← (kv.lookup "yd").bind parseList2 }
+    else none
+  some { c := { p := ← hx "p", q := q, a := ← f2 "a", b := ← f2 "b" }, g := some (← f2 "gx", ← f2 "gy"),
+         n := ← hx "n", h := ← hx "h", par := ← (kv.lookup "par").bind parseHexInt, pairf := ← dc "pairf", level := ← dc "level",
+         fpbits := ← dc "fpbits", ctmap := ctmap, alg := ← kv.lookup "mapalg", Z := ← f2 "mapu",
+         cs := [← f2 "c0", ← f2 "c1", ← f2 "c2", ← f2 "c3"], frb := (← f2 "frb0", ← f2 "frb1"), iso := iso,
+         isoa := (f2 "isoa").getD (0, 0), isob := (f2 "isob").getD (0, 0) }
+
+def Env.O (e : Env) : MapOps Fp2 := e.c.O
+def Env.mapCurve (e : Env) : WCurve Fp2 := if e.ctmap then { a := e.isoa, b := e.isob } else { a := e.c.a, b := e.c.b }
+def Env.useSswu (e : Env) : Bool := e.ctmap || (!e.O.isZero e.c.a && !e.O.isZero e.c.b)
+def Env.cc (e : Env) (i : Nat) : Fp2 := e.cs.getD i (0, 0)
+
+def checkParam (e : Env) : List String :=
+  let p := e.c.p
+  let O := e.O
+  let E := e.mapCurve
+  let Z := e.Z
+  let chk := fun (b : Bool) (s : String) => if b then [] else [s]
+  chk (p % 2 == 1 && !isSqMod p (qn p e.c.q)) "the constant q of Fp2 = Fp[u]/(u^2 - q) is a square" ++
+  chk (e.fpbits == Nat.log2 p + 1) "the configured field size differs from the bit length of p" ++
+  chk (onCurve e.c e.g && e.g != none) "generator not on the curve" ++
+  chk (mulNat e.c e.g e.n == none) "n*G != O" ++
+  chk (psi e.c e.frb.1 e.frb.2 e.g == mulNat e.c e.g (p % e.n)) "psi(G) != [p]G: the twist constants do not define the Frobenius endomorphism" ++
+  (if e.useSswu then
+    chk (!O.isSq Z) "SSWU: Z is a square" ++
+    chk (!O.isZero E.a && !O.isZero E.b) "SSWU: a*b = 0 on the curve the map works on" ++
+    chk (O.isZero (O.add (O.mul (e.cc 0) E.a) E.b)) "SSWU: c0 != -b/a" ++
+    chk (e.cc 2 == E.a && e.cc 3 == E.b) "SSWU: c2, c3 are not the coefficients of the curve the map works on" ++
+    chk (O.isSq (g O E (O.mul E.b (O.inv0 (O.mul Z E.a))))) "SSWU: g(B/(Z*A)) is not a square (the exceptional inputs do not map to the curve)"
+  else
+    let K := svdwConst O E Z
+    let d := O.add (O.mul (O.ofNat 3) (O.mul Z Z)) (O.mul (O.ofNat 4) E.a)
+    chk (!O.isZero K.c1) "SvdW: g(Z) = 0" ++
+    chk (e.cc 0 == K.c1) "SvdW: c0 != g(Z)" ++
+    chk (e.cc 1 == K.c2 && O.isZero (O.add (O.add (e.cc 1) (e.cc 1)) Z)) "SvdW: c1 != -Z/2" ++
+    chk (!O.isZero d && O.isSq (O.mul (O.neg K.c1) d)) "SvdW: -g(Z)(3Z^2+4A) is zero or not a square" ++
+    chk (O.mul (e.cc 2) (e.cc 2) == O.mul (O.neg K.c1) d && !O.sgn0 (e.cc 2) && e.cc 2 == K.c3) "SvdW: c2 is not the square root of -g(Z)(3Z^2+4A) with sgn0 = 0" ++
+    chk (O.isZero (O.add (O.mul (e.cc 3) d) (O.mul (O.ofNat 4) K.c1)) && e.cc 3 == K.c4) "SvdW: c3 != -4g(Z)/(3Z^2+4A)" ++
+    chk (O.isSq K.c1 || O.isSq (g O E K.c2)) "SvdW: neither g(Z) nor g(-Z/2) is a square (the exceptional inputs do not map to the curve)")
+
+def fmtFp2 (a : Fp2) : String := natToHex a.1 ++ ":" ++ natToHex a.2
+def fmtPoint : Point2 → String
+  | none => "inf"
+  | some (x, y) => fmtFp2 x ++ "," ++ fmtFp2 y
+
+def vet (e : Env) (P : Point2) : String :=
+  if !onCurve e.c P then "<the construction does not yield a curve point>"
+  else if mulNat e.c P e.n != none then "<the construction does not yield a point of the prime-order group>"
+  else fmtPoint P
+
+def clearCof (e : Env) (P : Point2) : Point2 :=
+  if e.pairf == 3 then clearBN e.c e.frb.1 e.frb.2 e.par P
+  else if e.pairf == 5 then clearB12 e.c e.frb.1 e.frb.2 e.par P
+  else mulNat e.c P e.h
+
+def specMap (e : Env) (u : Fp2) : Option Point2 :=
+  let O := e.O
+  let E := e.mapCurve
+  let xy := if e.useSswu then sswu O E e.Z u else svdw O E e.Z u
+  if O.mul xy.2 xy.2 != g O E xy.1 then none else
+  let Q : Point2 := match e.iso with
+    | none => some xy
+    | some I => match isoMap O I xy with
+      | none => none
+      | some q => some q
+  if onCurve e.c Q then some Q else none
+
+def handle (e : Env) (op : String) (args : List String) (got : String) : Option Verdict :=
+  let p := e.c.p
+  let L := fieldLen p e.level
+  match op, args with
+  | "ep2_map", [v, m] => do
+    let msg ← parseBytes m
+    let v := if v == "map" then e.alg else v
+    if v == "sswum" then
+      let ub ← xmd msg "RELIC".toUTF8.toList (4 * L)
+      let fe := fun (i : Nat) => fieldElem p L ub i
+      let t0 : Fp2 := (fe 0, fe 1)
+      let t1 : Fp2 := (fe 2, fe 3)
+      let spec := match specMap e t0, specMap e t1 with
+        | some q0, some q1 => vet e (clearCof e (add e.c q0 q1))
+        | _, _ => "<map_to_curve is undefined for this input: the constants violate the preconditions of the map>"
+      some { model := got, spec := [spec], tags := [if e.useSswu then (if e.ctmap then "ep2-sswu+iso" else "ep2-sswu") else "ep2-svdw"] }
+    else if v == "basic" then
+      -- hash and increment on the real part of x; both ordinates admitted
+      let digest := Sha256.sha256 msg
+      let x0 := os2ip (digest.take (min ((e.fpbits + 7) / 8) 32)) % p
+      let O := e.O
+      let E : WCurve Fp2 := { a := e.c.a, b := e.c.b }
+      let rec find (fuel x : Nat) : Option Nat :=
+        match fuel with
+        | 0 => none
+        | k + 1 => if O.isSq (g O E (x, 0)) then some x else find k ((x + 1) % p)
+      match find 4096 x0 with
+      | none => some { model := got, spec := ["<no abscissa found within 4096 increments>"] }
+      | some x =>
+        let y := O.sqrt (g O E (x, 0))
+        let P : Point2 := some ((x, 0), y)
+        let Q := clearCof e P
+        let v1 := vet e Q
+        some { model := got, spec := [v1, if v1 == fmtPoint Q then fmtPoint (neg e.c Q) else v1], tags := ["ep2-basic"] }
+    else none
+  | _, _ => none
+
+end Ext
 
 end Driver.C13
